@@ -347,6 +347,27 @@ CLAIMED = {
        "Known findings: second backward through a non-detached prediction, fantasies after a grad-enabled KISS-GP prediction, the data-determined "
        "KISS-GP grid as unsynchronised history state.",
   technique="contract-based deductive verification of the per-operation invalidation step (AST-extracted real functions, heap model with object identity, z3); exhaustive bounded enumeration of operation histories on the real code"),
+ "C18": dict(
+  category="other",
+  text="Proof tier (counted): the state-footprint clauses -- what gpytorch itself must do so that torch's / Python's persistence mechanisms carry the "
+       "prediction-relevant state: Interval.__init__ keeps the bounds in buffers (so every constraint's bounds travel with the state_dict); "
+       "priors/utils._bufferize_attributes registers prior parameters as buffers, for a TransformedDistribution the buffer IS the tensor the base "
+       "distribution reads (aliasing) and _load_transformed_to_base_dist points the base distribution at the loaded buffers; _VariationalStrategy / "
+       "VariationalStrategy.__init__ register the inducing points as parameter or buffer as requested (a clone of the argument) and the "
+       "initialisation flags variational_params_initialized (= 0) / updated_strategy as buffers; Module._load_from_state_dict drops the caches of "
+       "ExactGP / InducingPointKernel / GridKernel / variational strategies before delegating to torch; a deep copy of a prediction strategy is None. "
+       "Bounded tier (not counted): 49 model families (exact with a spread of kernels / constraints / priors, SGPR, KISS-GP, RFF, GridKernel, every "
+       "variational strategy x distribution, multitask, model lists) x 5 save points of a train / eval / predict history x 6 mechanisms (state_dict "
+       "into a fresh identical / differently constructed / already-used model, through a plain nn.Module holder, pickle, deepcopy): prior, "
+       "predictive mean / covariance, objective and its gradient, every state_dict entry, independence of copies.",
+  design_ref="DESIGN.md section 5, C18",
+  note="'No prediction-relevant state lives outside what these mechanisms carry' is a universally quantified statement over all attributes of all "
+       "classes: contracts state it for the registration sites above; the rest is measured on the enumerated families. torch's state_dict / pickle / "
+       "deepcopy protocols are assumed. Loading each child's state_dict separately is not part of the property and is not demanded. Known findings "
+       "(7 groups): Uniform / LKJ prior parameters outside the state_dict, transformed priors after .double(), pickling of locally defined prior "
+       "closures, RFF weights registered at first call, InducingPointKernel.__deepcopy__, deepcopy with graph-holding caches, the data-determined "
+       "KISS-GP grid bounds.",
+  technique="contract-based deductive verification of the registration / invalidation sites (AST-extracted real functions, heap model with object identity and aliasing, z3); bounded enumeration of round trips on the real code"),
 }
 REASON_NOT_BUILT = "contracts for this property are not built yet in this revision (see DESIGN.md section 9 build order); not claimed until its obligations are discharged by the checker"
 
